@@ -76,7 +76,21 @@ def run(chk: core.Check, tier: str, seed: int) -> None:
     texts = list(dict.fromkeys(texts))
     recs = []
     compiled = 0
+    # the long inputs first, in a child process that can be killed: a scanner that backtracks exponentially over a long run of
+    # characters never comes back to the interpreter, and no in-process guard could end it
+    longs = [t for t in dict.fromkeys(long_inputs(rng)) if len(t) > 24]
+    lrecs, ltimeouts = impl.isolated_compile_records(longs, per_text=10.0)
+    recs += lrecs
+    chk.notes["long_inputs_in_a_killable_child"] = len(lrecs)
+    chk.notes["long_inputs_not_run_after_repeated_timeouts"] = len(longs) - len(lrecs)
+    slow = set()
+    if ltimeouts:
+        # the tree does not terminate on some long input: the in-process corpus below keeps to short texts
+        slow = {core.dec_text(r["q"]) for r in lrecs if r.get("timeout")}
+        texts = [t for t in texts if len(t) <= 24]
     for q in texts:
+        if q in slow:
+            continue
         timed_out, rec = impl.with_timeout(20.0, impl.rec_compile, jp, q)
         if timed_out:
             rec = {"op": "compile", "q": core.enc_text(q), "out": "raise", "jp": True, "cls": "timeout", "timeout": True}
